@@ -181,8 +181,19 @@ def run_mc(name, tier):
     cov = {}
     for mm in re.finditer(r"<(\w+) line (\d+), col \d+ to line \d+, col \d+ of module (\w+)>: (\d+):(\d+)", out):
         cov["%s@%s:%s" % (mm.group(1), mm.group(3), mm.group(2))] = [int(mm.group(4)), int(mm.group(5))]
-    result = dict(name=name, tier=tier, module=module, cfg=cfg, ok=ok, complete=ok, timeout=(r.returncode == 124),
-                  generated=int(m.group(1)) if m else 0, distinct=int(m.group(2)) if m else 0,
+    timed_out = r.returncode == 124 and not viol and "Error:" not in out
+    if timed_out:
+        # the time limit ended an exploration that had found nothing: not a verdict against anything, and not
+        # a tool failure either -- report how far it got (evidence: exhaustive = false) and go on
+        pm = re.findall(r"Progress\(\d+\) at [^:]+:\d+:\d+: ([\d,]+) states generated.*?, ([\d,]+) distinct states found", out)
+        if pm:
+            m = None
+            gen_, dist_ = (int(x.replace(",", "")) for x in pm[-1])
+        else:
+            gen_, dist_ = 0, 0
+        ok = True
+    result = dict(name=name, tier=tier, module=module, cfg=cfg, ok=ok, complete=ok and not timed_out, timeout=(r.returncode == 124),
+                  generated=int(m.group(1)) if m else (gen_ if timed_out else 0), distinct=int(m.group(2)) if m else (dist_ if timed_out else 0),
                   depth=int(depth.group(1)) if depth else 0, violations=viol, wall_s=round(time.time() - t0, 1),
                   action_coverage=cov,
                   cmd=" ".join(cmd[2:]))
@@ -515,7 +526,11 @@ def run_check(pid, tier, seed, replay):
     for name in plan.get("mc", []):
         r = run_mc(name, tier)
         mcs.append(r)
-        log("MC %s: ok=%s distinct=%d generated=%d (%.0fs)" % (name, r["ok"], r["distinct"], r["generated"], r["wall_s"]))
+        log("MC %s: ok=%s distinct=%d generated=%d (%.0fs)%s" % (name, r["ok"], r["distinct"], r["generated"], r["wall_s"],
+                                                              "" if r.get("complete", True) else " INCOMPLETE (time limit): no violation in the part explored"))
+        if r["ok"] and not r.get("complete", True):
+            notes.append("model checking %s stopped by its time limit after %.0fs: %d distinct states explored, no violation (not exhaustive)"
+                         % (name, r["wall_s"], r["distinct"]))
         if not r["ok"]:
             print("TOOL-ERROR model checking %s did not complete cleanly: %s" % (name, r["violations"] or "timeout/error"))
             write_evidence(pid, tier, seed, mcs, [], [], [], notes + ["model checking failed: %s" % name], t0, 0, tool_error=True)
